@@ -269,6 +269,38 @@ fn gate_string_case(seed: u64, obs: &mut Obs) {
     }
 }
 
+/// Gating on an arbitrary string: a source with any syntax diagnostic yields an empty program and
+/// no semantic diagnostics (and in particular a result, not a panic); a clean one is analysed.
+fn gate_text_case(src: &str, obs: &mut Obs) {
+    obs.fp.str(src);
+    let expect = match guard(|| !syntax_clean(src)) {
+        Ok(e) => e,
+        Err(p) => {
+            obs.inconclusive(format!("parse panicked (C01): {}", p.site()));
+            return;
+        }
+    };
+    let r2 = guard(|| {
+        let res = parse_source_string(src, Some("c11.qasm"));
+        (observe_gate(&res), has_translatable_statement(src))
+    });
+    match r2 {
+        Err(p) if expect => {
+            obs.violate(
+                format!("gating/panic-on-source-with-syntax-errors/{}", p.site()),
+                format!("{src:?}: parse_source_string panicked at {}:{} ({}) although the source has syntax diagnostics and must yield an empty program", p.file, p.line, p.msg),
+            );
+            obs.done(true);
+        }
+        Err(p) => obs.inconclusive(format!("analysis panicked (C03): {}", p.site())),
+        Ok((g, tr)) => {
+            check_gate(&g, expect, tr, "hostile-string", &format!("{src:?}"), obs);
+            obs.note = format!("syntax error expected: {expect}; statements {}, semantic diagnostics {}", g.nstmts, g.nsem);
+            obs.done(src.len() >= 3);
+        }
+    }
+}
+
 fn scratch_dir(tag: &str) -> PathBuf {
     use std::sync::atomic::{AtomicU64, Ordering};
     static N: AtomicU64 = AtomicU64::new(0);
@@ -346,11 +378,18 @@ impl Property for C11 {
         "Streams: (1) exhaustive splice table: each of 30 malformed lexemes (unterminated strings/bit strings/block comments, base prefixes without digits, exponents without digits in every shape, malformed version headers, identifiers with forbidden characters) next to each lexeme class of the C15 table, in first/middle/last position with space and newline separators (unterminated lexemes only last, since they swallow the rest): the real LexedStr must report a lexical error on a token overlapping the malformed lexeme, and parse_check_lex returns a tree iff there is no lexical error, with no lexer message when a tree is returned; (2) generated programs, half with an injected syntax error, through parse_source_string: syntax errors => empty program and no semantic diagnostics, otherwise analysis ran; (3) include chains of depth 1-3 on disk with a lexical or syntactic error at depth 0..3 or nowhere, through both string and file entry points. Non-trivial: all cases. Distinct: hash of the source text / layout."
     }
     fn streams(&self, tier: Tier, seed: u64) -> Vec<Stream> {
-        vec![
+        let mut v = vec![
             Stream::new("malformed-lexeme-splice-table", splice_count(), true, |i| format!("splice:{i}")),
             Stream::new("pipeline-gating-programs", tier.pick(30_000, 1_500_000), false, move |i| format!("gate:{}", mix(&[seed, 0xC11, 1, i]))),
             Stream::new("pipeline-gating-include-chains", tier.pick(1_500, 40_000), false, move |i| format!("inc:{}", mix(&[seed, 0xC11, 2, i]))),
-        ]
+        ];
+        // the gating clause on arbitrary strings (every prefix of every seed program, mutants,
+        // token soup, hostile UTF-8 ...) through parse_source_string
+        for mut st in super::common::string_streams(0xC11, tier, seed, 0.5) {
+            st.name = format!("gating-{}", st.name);
+            v.push(st);
+        }
+        v
     }
     fn check(&self, input: &str, obs: &mut Obs) {
         if let Some(rest) = input.strip_prefix("splice:") {
@@ -363,6 +402,10 @@ impl Property for C11 {
         }
         if let Some(rest) = input.strip_prefix("inc:") {
             gate_include_case(rest.parse().unwrap_or(0), obs);
+            return;
+        }
+        if let Some(s) = input.strip_prefix("s:") {
+            gate_text_case(s, obs);
             return;
         }
         if let Some(s) = input.strip_prefix("lex:") {
